@@ -2,10 +2,10 @@
 
 Behaviours  H ; reset ; P  from four component models whose reset operator is checked (in the model) to equal
 'freshly initialised and started with the current dictionary values'; P exposes the post-reset behaviour
-incl. the timer pool occupancy.  The SDO server and LSS parts of the statement are exercised by the reset
-probes of C05 and C18."""
+incl. the timer pool occupancy.  (L) is the LSS slave: reset in the middle of the selective / identify sequences.
+The SDO server part of the statement is exercised by the reset probe of C05."""
 import common, node_common, node_check, pdo_check, vlib
-import C15, C19
+import C15, C18, C19
 
 def obs_node(it):
     return node_check.observe(it) or it[0] in ("acts", "fire")
@@ -16,15 +16,16 @@ def obs_pdo(it):
 def run(ctx):
     q = ctx.tier == "quick"
     ctx.assumptions += [
-        "component-wise: (N) NMT + heartbeat producer + two heartbeat consumers + application timers + EMCY flag, (P) SYNC producer/consumer + event TPDO with inhibit/event timers + synchronous RPDO, (C) SDO client with running transfers, (E) EMCY errors / register; reset communication and reset node in every reachable state of each bounded model",
-        "in each model TLC checks 'state after reset = FreshFrom(current dictionary values)' (application values and application timers untouched); the SDO server and LSS parts are covered by the reset probes of C05 and C18",
+        "component-wise: (L) LSS slave incl. partial selective / identify sequences and pending configuration, (N) NMT + heartbeat producer + two heartbeat consumers + application timers + EMCY flag, (P) SYNC producer/consumer + event TPDO with inhibit/event timers + synchronous RPDO, (C) SDO client with running transfers, (E) EMCY errors / register; reset communication and reset node in every reachable state of each bounded model",
+        "in each model TLC checks 'state after reset = FreshFrom(current dictionary values)' (application values and application timers untouched); the SDO server part is covered by the reset probe of C05",
         "the probe after the reset observes: free timer slots (pool of 16, application timers keep their slots), mode, heartbeat timing, consumer monitoring from the first heartbeat, SYNC production and consumption, PDOs silent until OPERATIONAL, client idle and usable, errors cleared",
         "the ring position of the EMCY history is not a dictionary value: reads of 1003h:n are not part of the probe (C15 owns the history)",
     ]
     plan = [("MCNode", "C20N", node_common.make_preamble(node_check.cfgfix), obs_node, "C20N_genq.cfg"),
             ("MCPdo", "C20P", node_common.make_preamble(pdo_check.fix), obs_pdo, None),
             ("MCCsdo", "C20C", node_common.make_preamble(C19.fix), lambda it: C19.observe(it), None),
-            ("MCEmcy", "C20E", node_common.make_preamble(C15.fix), C15.observe, None)]
+            ("MCEmcy", "C20E", node_common.make_preamble(C15.fix), C15.observe, None),
+            ("MCLss", "C20L", node_common.make_preamble(C18.fix), C18.observe, None)]
     for module, pid, pre, obs, genq in plan:
         ctx.mc(module, "%s_mc.cfg" % pid, timeout=2500)
         behs = ctx.gen_edges(module, genq if (q and genq) else "%s_gen.cfg" % pid, timeout=3000)
